@@ -13,7 +13,7 @@ import hashlib
 import json
 from pathlib import Path
 
-from .. import common, genrun, richgen, specgen
+from .. import common, genrun, richgen, shapes, specgen
 from ..common import Ctx
 
 LEVEL = "exploration"
@@ -249,6 +249,27 @@ def run_shard(ctx: Ctx) -> None:
         allow = {"anonymous_array_items"} if ctx.rng.random() < 0.3 else set()
         run_doc(ctx, richgen.generate(ctx.rng, allow=allow), ctx.shard * 1000 + 500 + b)
         ctx.rec.count("rich_documents")
+    run_catalogue(ctx)
+
+
+def run_catalogue(ctx: Ctx) -> None:
+    """The exhaustive shape catalogue under the same differential: the shared schemas every shape refers to (a model, an enum, a
+    primitive alias, unions) are declared first in the base document, so every permutation turns some references into forward
+    references - e.g. the nullable-reference idiom allOf [$ref] + nullable pointing at an enum declared later."""
+    chunks = shapes.chunked(2 if ctx.quick else 3, 20)
+    for ci, chunk in enumerate(chunks):
+        if not ctx.mine(ci):
+            continue
+        if ctx.quick and (ci // ctx.nshards) % 2:
+            continue
+        d = shapes.document(chunk)
+        feats = set(getattr(d, "features", set())) | {"shape_catalogue"}
+        # arrays without a name of their own whose items need a class (recorded finding: their class names follow parse order)
+        if any(("array" in sh[:-1] or sh[-1] == "array_no_items") and ("map" in sh[:-1] or "array" in sh[:-1]) for _, sh in chunk):
+            feats.add("rich_anonymous_array_items")
+        d.features = feats
+        ctx.rec.count("catalogue_documents")
+        run_doc(ctx, d, ctx.shard * 1000 + 700 + ci)
 
 
 def replay(ctx: Ctx, file: dict) -> None:
